@@ -21,6 +21,7 @@ RULE = (
     "all shapes <= 4 (quick) / 5 (thorough) nodes x 3 naming schemes x every start x every relative and absolute pattern of <= 3 / <= 4 "
     "components over an 11-symbol alphabet. Non-trivial query = it contains a wildcard or '**' and denotes at least one node, or a strict "
     "dead end below the first component; distinct_nontrivial counts cases with such a query."
+    ' Also: names as str subclasses with their own __str__; 4 generated shards of sibling names with special-casing characters judged by folding-independent clauses (see assumptions).'
 )
 ASSUMPTIONS = [
     "reference evaluator with its own wildcard matcher (dynamic programming, no re/fnmatch); '**' = pre-order of the current node's subtree",
